@@ -6,12 +6,13 @@ Require Import Verif.Lib.Wire Verif.Lib.C15Prog Verif.Gen.Facts_C15 Verif.Model.
 
 Section Sched.
   Variable sro : N -> list N.
+  Variable km : key_mode.
   Variables LP RP : list instr.
   Variable st0 : state.
 
-  Definition Snd (s : sst) : Prop := sstate s = exec sro LP RP (rev (strace s)) st0.
+  Definition Snd (s : sst) : Prop := sstate s = exec sro km LP RP (rev (strace s)) st0.
 
-  Lemma Snd_emit s l : Snd s -> Snd (emit sro LP RP s l).
+  Lemma Snd_emit s l : Snd s -> Snd (emit sro km LP RP s l).
   Proof.
     unfold Snd. destruct s as [[st tr] ids]. simpl. intros ->.
     unfold exec. rewrite fold_left_app. reflexivity.
@@ -26,7 +27,7 @@ Section Sched.
 
   Lemma drive_lookup_sound (run : list op -> sst -> sst) i inj :
     (forall ops s, Snd s -> Snd (run ops s)) ->
-    forall n q b s, Snd s -> Snd (drive_lookup sro LP RP run i inj n q b s).
+    forall n q b s, Snd s -> Snd (drive_lookup sro km LP RP run i inj n q b s).
   Proof.
     intros RO. induction n as [|n IHn]; intros q b s H; [exact H|]. simpl.
     destruct (threads (sstate s) i) as [t|]; [|exact H].
@@ -38,7 +39,7 @@ Section Sched.
 
   Lemma drive_register_sound (run : list op -> sst -> sst) i inj inj2 :
     (forall ops s, Snd s -> Snd (run ops s)) ->
-    forall n s, Snd s -> Snd (drive_register sro LP RP run i inj inj2 n s).
+    forall n s, Snd s -> Snd (drive_register sro km LP RP run i inj inj2 n s).
   Proof.
     intros RO. induction n as [|n IHn]; intros s H; [exact H|]. simpl.
     destruct (threads (sstate s) i) as [t|]; [|exact H].
@@ -48,31 +49,31 @@ Section Sched.
     apply RO. apply Snd_emit. apply RO. exact H.
   Qed.
 
-  Lemma run_op_sound fuel : forall o s, Snd s -> Snd (run_op sro LP RP fuel o s).
+  Lemma run_op_sound fuel : forall o s, Snd s -> Snd (run_op sro km LP RP fuel o s).
   Proof.
     induction fuel as [|f IH]; intros o s H; [exact H|].
-    assert (RO : forall ops s, Snd s -> Snd (fold_left (fun s o => run_op sro LP RP f o s) ops s)).
+    assert (RO : forall ops s, Snd s -> Snd (fold_left (fun s o => run_op sro km LP RP f o s) ops s)).
     { intros ops. apply Snd_fold. intros o0 s0. apply IH. }
     destruct o as [id k inj|id ups inj inj2].
-    - change (Snd (drive_lookup sro LP RP (fun ops s => fold_left (fun s o => run_op sro LP RP f o s) ops s)
+    - change (Snd (drive_lookup sro km LP RP (fun ops s => fold_left (fun s o => run_op sro km LP RP f o s) ops s)
                                 (ntid (sstate s)) inj lookup_fuel 0 false
-                                (emit sro LP RP (note s id) (SpawnLookup k)))).
+                                (emit sro km LP RP (note s id) (SpawnLookup k)))).
       apply drive_lookup_sound; [exact RO|]. apply Snd_emit, Snd_note, H.
-    - change (Snd (drive_register sro LP RP (fun ops s => fold_left (fun s o => run_op sro LP RP f o s) ops s)
+    - change (Snd (drive_register sro km LP RP (fun ops s => fold_left (fun s o => run_op sro km LP RP f o s) ops s)
                                   (ntid (sstate s)) inj inj2 register_fuel
-                                  (emit sro LP RP (note s id) (SpawnRegister ups)))).
+                                  (emit sro km LP RP (note s id) (SpawnRegister ups)))).
       apply drive_register_sound; [exact RO|]. apply Snd_emit, Snd_note, H.
   Qed.
 
-  Lemma run_ops_sound fuel ops s : Snd s -> Snd (run_ops sro LP RP fuel ops s).
+  Lemma run_ops_sound fuel ops s : Snd s -> Snd (run_ops sro km LP RP fuel ops s).
   Proof. unfold run_ops. apply Snd_fold. intros o s0. apply run_op_sound. Qed.
 End Sched.
 
 (* what run_C15 computes: the state it reports is exec of the trace it reports *)
-Theorem sched_sound : forall sro LP RP fuel ops st0,
-  let s := run_ops sro LP RP fuel ops (st0, [], []) in
-  sstate s = exec sro LP RP (rev (strace s)) st0.
+Theorem sched_sound : forall sro km LP RP fuel ops st0,
+  let s := run_ops sro km LP RP fuel ops (st0, [], []) in
+  sstate s = exec sro km LP RP (rev (strace s)) st0.
 Proof.
-  intros sro LP RP fuel ops st0. apply (run_ops_sound sro LP RP st0 fuel ops (st0, [], [])).
+  intros sro km LP RP fuel ops st0. apply (run_ops_sound sro km LP RP st0 fuel ops (st0, [], [])).
   reflexivity.
 Qed.
